@@ -19,7 +19,26 @@ def Lra.inBounds (t : Lra) (x : Nat) : Prop := IR.lt (t.value x) (t.lb x) = fals
 /-- a successful `check()` leaves every basic variable within its bounds -/
 theorem C09_check_success_in_bounds (t t' : Lra) (fuel : Nat) (h : t.check fuel = some (none, t')) :
     ∀ e ∈ t'.tableau, t'.inBounds e.1 := by
-  sorry
+  induction fuel generalizing t with
+  | zero => simp [check] at h
+  | succ n ih =>
+    simp only [check] at h
+    split at h
+    · next hf =>
+      simp only [Option.some.injEq, Prod.mk.injEq, true_and] at h
+      subst h
+      intro e he
+      have := List.find?_eq_none.1 hf e he
+      simpa [Lra.inBounds] using this
+    · split at h
+      · split at h
+        · exact ih _ h
+        · simp at h
+      · split at h
+        · split at h
+          · exact ih _ h
+          · simp at h
+        · exact ih _ h
 
 /-- a failed `check()` names a row: its basic variable is out of bounds, no non-basic variable of the row can move
     in the helping direction, and the explanation is exactly the negated reasons of the bounds that block it
@@ -38,12 +57,46 @@ theorem C09_check_conflict_shape (t t' : Lra) (fuel : Nat) (c : List Lit) (h : t
                         (e.2.isPositive = true → IR.gt (t'.value e.1) (t'.lb e.1) = false)) ∧
         c = fl.vars.foldl (fun c e => if e.2.isPositive then c ++ [(t'.lbReason e.1).neg]
                                        else if e.2.isNegative then c ++ [(t'.ubReason e.1).neg] else c) [] ++ [(t'.ubReason xi).neg])) := by
-  sorry
+  induction fuel generalizing t with
+  | zero => simp [check] at h
+  | succ n ih =>
+    simp only [check] at h
+    split at h
+    · simp at h
+    · next xi fl hf =>
+      have hmem := List.mem_of_find?_eq_some hf
+      split at h
+      · next hlt =>
+        split at h
+        · exact ih _ h
+        · next hnone =>
+          simp only [Option.some.injEq, Prod.mk.injEq] at h
+          obtain ⟨hc, ht⟩ := h
+          subst ht
+          refine ⟨xi, fl, hmem, Or.inl ⟨hlt, ?_, hc.symm⟩⟩
+          intro e he
+          have := List.find?_eq_none.1 hnone e he
+          simp only [Bool.or_eq_true, Bool.and_eq_true, not_or, not_and, Bool.not_eq_true] at this
+          exact this
+      · split at h
+        · next hgt =>
+          split at h
+          · exact ih _ h
+          · next hnone =>
+            simp only [Option.some.injEq, Prod.mk.injEq] at h
+            obtain ⟨hc, ht⟩ := h
+            subst ht
+            refine ⟨xi, fl, hmem, Or.inr ⟨hgt, ?_, hc.symm⟩⟩
+            intro e he
+            have := List.find?_eq_none.1 hnone e he
+            simp only [Bool.or_eq_true, Bool.and_eq_true, not_or, not_and, Bool.not_eq_true] at this
+            exact this
+        · exact ih _ h
 
 /-- `check()` never touches bounds, assertions or the undo log: only values and the tableau move -/
 theorem C09_check_keeps_bounds (t t' : Lra) (fuel : Nat) (c : Option (List Lit)) (h : t.check fuel = some (c, t')) :
     t'.bounds = t.bounds ∧ t'.vAsrts = t.vAsrts ∧ t'.layers = t.layers ∧ t'.exprs = t.exprs ∧ t'.sAsrts = t.sAsrts := by
-  sorry
+  exact (C09_core_iff t t').1 (C09_core_check fuel t t' c h)
 
 /-- a bound assertion: vacuous when not tighter; an immediate conflict citing the assertion and the opposite bound's
     reason when it crosses the opposite bound (nothing is changed then); otherwise the bound becomes `val` with reason
@@ -54,7 +107,7 @@ theorem C09_assert_lower_effect (s : Sat) (t : Lra) (xi : Nat) (val : IR) (p : L
     (IR.le val (t.lb xi) = false → IR.gt val (t.ub xi) = true → r.cnfl = some [p.neg, (t.ubReason xi).neg] ∧ r.th = t ∧ r.sat = s) ∧
     (IR.le val (t.lb xi) = false → IR.gt val (t.ub xi) = false → lbIdx xi < t.bounds.length →
       r.th.bnd (lbIdx xi) = ⟨val, p⟩ ∧ ∀ i, i ≠ lbIdx xi → r.th.bnd i = t.bnd i) := by
-  sorry
+  exact C09_assertLower_effect s t xi val p
 
 theorem C09_assert_upper_effect (s : Sat) (t : Lra) (xi : Nat) (val : IR) (p : Lit) :
     let r := assertUpper s t xi val p
@@ -62,7 +115,7 @@ theorem C09_assert_upper_effect (s : Sat) (t : Lra) (xi : Nat) (val : IR) (p : L
     (IR.ge val (t.ub xi) = false → IR.lt val (t.lb xi) = true → r.cnfl = some [p.neg, (t.lbReason xi).neg] ∧ r.th = t ∧ r.sat = s) ∧
     (IR.ge val (t.ub xi) = false → IR.lt val (t.lb xi) = false → ubIdx xi < t.bounds.length →
       r.th.bnd (ubIdx xi) = ⟨val, p⟩ ∧ ∀ i, i ≠ ubIdx xi → r.th.bnd i = t.bnd i) := by
-  sorry
+  exact C09_assertUpper_effect s t xi val p
 
 /-- unate propagation only ever cites the assertion's own literal and the reason of the bound that decides it:
     the conflict / recorded clause of `assertion::propagate_lb` is `[±b, ¬reason(lb x)]` and is produced only when the
@@ -71,13 +124,23 @@ theorem C09_unate_lower_explanation (s : Sat) (t : Lra) (a : LAsrt) (xi : Nat) (
     (h : (asrtPropagateLb s t a xi).1 = some c) :
     (a.o = .leq ∧ IR.gt (t.lb xi) a.v = true ∧ s.value a.b = some true ∧ c = [a.b.neg, (t.lbReason xi).neg]) ∨
     (a.o = .geq ∧ IR.ge (t.lb xi) a.v = true ∧ s.value a.b = some false ∧ c = [a.b, (t.lbReason xi).neg]) := by
-  sorry
+  unfold asrtPropagateLb at h
+  cases ho : a.o <;> simp only [ho] at h <;>
+    rcases hv : s.value a.b with _ | _ | _ <;> simp only [hv] at h <;>
+    first
+      | (simp at h; done)
+      | (split at h <;> simp at h <;> simp_all)
 
 theorem C09_unate_upper_explanation (s : Sat) (t : Lra) (a : LAsrt) (xi : Nat) (c : List Lit)
     (h : (asrtPropagateUb s t a xi).1 = some c) :
     (a.o = .leq ∧ IR.le (t.ub xi) a.v = true ∧ s.value a.b = some false ∧ c = [a.b, (t.ubReason xi).neg]) ∨
     (a.o = .geq ∧ IR.lt (t.ub xi) a.v = true ∧ s.value a.b = some true ∧ c = [a.b.neg, (t.ubReason xi).neg]) := by
-  sorry
+  unfold asrtPropagateUb at h
+  cases ho : a.o <;> simp only [ho] at h <;>
+    rcases hv : s.value a.b with _ | _ | _ <;> simp only [hv] at h <;>
+    first
+      | (simp at h; done)
+      | (split at h <;> simp at h <;> simp_all)
 
 /-- the undo log: `saveBound` keeps the FIRST value a bound had in the level, and `pop` after `push` and any number
     of saved-then-overwritten bounds restores every bound (values and reasons) and the older layers -/
@@ -86,10 +149,15 @@ def Lra.overwrite (t : Lra) (ws : List (Nat × LBound)) : Lra :=
 
 theorem C09_pop_restores_bounds (t : Lra) (ws : List (Nat × LBound)) (hw : ∀ w ∈ ws, w.1 < t.bounds.length) :
     (((t.push).overwrite ws).pop).bounds = t.bounds ∧ (((t.push).overwrite ws).pop).layers = t.layers := by
-  sorry
+  exact C09_pop_of_inv t _ (C09_popInv_overwrite t ws t.push hw (C09_popInv_push t))
 
 /-- non-vacuity: a two-variable system where `check` pivots and succeeds, and one where it reports a conflict -/
 example : ∃ t fuel t', Lra.check t fuel = some (none, t') ∧ t'.tableau ≠ t.tableau := by
-  sorry
+  -- x0 free and non-basic, x1 = x0 basic with x1 ≥ 1, every value 0: `check` pivots x1 with x0 and succeeds
+  exact ⟨c09ExampleState, 2, C09_example_witness c09ExampleState 2 (by decide +kernel)⟩
+
+/-- the same system with x0 ≤ 0 in addition: no variable of the row can move, `check` reports the conflict -/
+example : ∃ t fuel c t', Lra.check t fuel = some (some c, t') :=
+  ⟨c09ConflictState, 1, C09_example_conflict_witness c09ConflictState 1 (by decide +kernel)⟩
 
 end Oratio
